@@ -208,6 +208,11 @@ func (k Keeper) ForceValidatorUnstake(ctx sdk.Ctx, validator types.Validator) sd
 	k.BeforeValidatorUnstaked(ctx, validator.GetAddress())
 	// delete the validator from staking set as they are unstaked
 	k.deleteValidatorFromStakingSet(ctx, validator)
+	// a validator forced out while it was unstaking also leaves the unstaking queue: a left-over entry would, once
+	// the validator has staked and begun to unstake again, complete that later unstaking at the earlier time
+	if validator.IsUnstaking() {
+		k.deleteUnstakingValidator(ctx, validator)
+	}
 	// amount unstaked = stakedTokens (nothing is left to burn after a slash of the whole stake)
 	if validator.StakedTokens.IsPositive() {
 		err := k.burnStakedTokens(ctx, validator.StakedTokens)
